@@ -1,4 +1,5 @@
 import Rangers.Generated.TrieDbFacts
+import Rangers.Model.StateCommit
 /-!
 # C03 — proof obligations about the facts the translator regenerates on every run
 
@@ -89,5 +90,41 @@ theorem facts_fork_flags_and_globals :
     TrieDbFacts.packageLevelWrites =
       ["src/storage/account/accountdb_eth.go:loadContractCache:rpgContractAddress",
        "src/storage/account/init.go:Init:accountLog"] := by decide
+
+/-! ## which accounts a state commit may change -/
+
+open Rangers.Model.StateCommit in
+/-- the guards `Model/StateCommit.lean` transcribes, verbatim from the source: `Commit`
+    deletes an object only if it self-destructed or is **dirty** and empty (with
+    `deleteEmptyObjects`), writes it only if dirty; `Finalise` walks the dirty set only.
+    A helper call, a dropped `isDirty`, a new case — any change of these texts breaks this. -/
+theorem facts_commit_guards :
+    TrieDbFacts.commitObjectCases =
+      ["accountObject.suicided || (isDirty && deleteEmptyObjects && accountObject.empty()) => delete",
+       "isDirty => update"] ∧
+    TrieDbFacts.commitIsDirtyDef = "_, isDirty := adb.accountObjectsDirty[addr]" ∧
+    TrieDbFacts.finaliseDeleteGuard = "accountObject.suicided || (deleteEmptyObjects && accountObject.empty())" ∧
+    TrieDbFacts.finaliseRangesOver = "adb.accountObjectsDirty" := by decide
+
+open Rangers.Model.StateCommit in
+/-- **a commit changes only what the block changed**: an account object that was merely
+    loaded (looked at through `Exist`/`GetNonce`/`GetCode*`/…, not modified, not
+    self-destructed) is neither deleted nor rewritten — whatever `empty()` says about
+    it, i.e. also when all it has is storage on disk, nonce 0 and no code. -/
+theorem commit_leaves_clean_objects (del : Bool) (o : Obj) (hs : o.suicided = false) (hd : o.dirty = false) :
+    commitAction del o = .none := by
+  simp [commitAction, hs, hd]
+
+open Rangers.Model.StateCommit in
+/-- `Commit` and `Finalise` (hence `IntermediateRoot`) agree on every object that did not
+    self-destruct while clean: the root computed just before the commit is the committed root's content. -/
+theorem commit_agrees_with_finalise (del : Bool) (o : Obj) (h : o.suicided = true → o.dirty = true) :
+    commitAction del o = finaliseAction del o := by
+  cases hs : o.suicided <;> cases hd : o.dirty <;> cases he : o.empty <;> cases del <;>
+    simp_all [commitAction, finaliseAction]
+
+open Rangers.Model.StateCommit in
+/-- non-vacuity: a data-only account (storage on disk, nonce 0, no code) that a block only looked at -/
+example : commitAction true ⟨false, false, true⟩ = .none ∧ commitAction true ⟨false, true, true⟩ = .delete := by decide
 
 end Rangers.Props.C03Facts
